@@ -2,7 +2,8 @@
 C14 — vacancy-mediated results depend only on their inputs, not on call history.
 
 E2: explicit-state BFS over the real VacancyMediated object.  Operations (the alphabet):
-  L:a L:b L:c   evaluate Lij on input a, b (same vacancy data as a => same cache key, different solute data), c
+  L:a L:b L:c L:x  evaluate Lij on input a, b (same vacancy data as a => same cache key, different solute data), c,
+                x (= a with every exchange barrier lowered by 30: the large-omega2 algorithm on the same cache key)
   scribble      overwrite every array returned by the most recent Lij call with 7.0 (a caller editing its results)
   clear         clearcache()
   gf:same gf:6/4 calc.GFcalc = calc.GFcalculator(NGFmax) with the current / the other mesh parameter
@@ -28,17 +29,17 @@ RULE = ('states = distinct canonical states reached by operation sequences up to
 LEVEL_TEXT = 'Every operation sequence up to the depth bound (with state de-duplication) on each listed crystal; results compared with a fresh calculator bit-for-bit when the GF path is identical, to 1e-9 otherwise.'
 LEVEL_NOTE = 'canon merges states with identical Nthermo, NGFmax, cache contents (bytes), last-result bytes and aliasing pattern: Lij reads nothing else that is mutable.'
 
-OPS = ['L:a', 'L:b', 'L:c', 'scribble', 'clear', 'gf:same', 'gf:other', 'regen:1', 'regen:2', 'saveload', 'foreign']
-CONFIGS = {'FCC': ('FCC', 0), 'HONEY2': ('HONEY', 1), 'HCP': ('HCP', 0), 'SQUARE': ('SQUARE', 0), 'ROMEGA': ('ROMEGA', 0)}
+OPS = ['L:a', 'L:b', 'L:c', 'L:x', 'scribble', 'clear', 'gf:same', 'gf:other', 'regen:1', 'regen:2', 'saveload', 'foreign']
+CONFIGS = {'FCC': ('FCC', 0), 'HONEY2': ('HONEY', 1), 'RECTM': ('RECTM', 0), 'HCP': ('HCP', 0), 'SQUARE': ('SQUARE', 0), 'ROMEGA': ('ROMEGA', 0)}
 
 
 def BOUNDS(tier):
-    return {'crystals': ['FCC', 'HONEY2 (honeycomb, 2 jump types)'] if tier == 'quick' else list(CONFIGS), 'depth': 3 if tier == 'quick' else 5, 'ops': OPS,
-            'inputs': 'a = base G1, b = G1 with one solute-vacancy class shifted by +ln3 (same vacancy data), c = base G2', 'NGFmax': [4, 6]}
+    return {'crystals': ['FCC', 'HONEY2 (honeycomb, 2 jump types)', 'RECTM (origin states)'] if tier == 'quick' else list(CONFIGS), 'depth': 3 if tier == 'quick' else 5, 'ops': OPS,
+            'inputs': 'a = base G1, b = G1 with one solute-vacancy class shifted by +ln3 (same vacancy data), c = base G2, x = a with every exchange barrier lowered by 30 (large-omega2 algorithm, same vacancy data)', 'NGFmax': [4, 6]}
 
 
 def cases(tier):
-    names = ['FCC', 'HONEY2'] if tier == 'quick' else list(CONFIGS)   # HONEY2: two jump types (the GF pole cutoff depends on the input)
+    names = ['FCC', 'HONEY2', 'RECTM'] if tier == 'quick' else list(CONFIGS)   # RECTM: origin states   # HONEY2: two jump types (the GF pole cutoff depends on the input)
     depth = 3 if tier == 'quick' else 5
     # the BFS of one crystal is split by its first operation to use the pool
     return [{'key': '{}/first={}'.format(n, op), 'config': n, 'first': op, 'depth': depth, 'cost': 3 if op.startswith('regen') else 1} for n in names for op in OPS]
@@ -61,6 +62,10 @@ def input_data(config, N, which):
     if which == 'a': return vm.base_data(ent, 'G1')
     if which == 'c': return vm.base_data(ent, 'G2')
     d = vm.base_data(ent, 'G1')
+    if which == 'x':
+        d = {k: np.array(v, dtype=float).copy() for k, v in d.items()}
+        d['eneT2'] = d['eneT2'] - 30.
+        return d
     coords = vm.coordinates(ent)
     ci = next(n for n, (kind, _) in enumerate(coords) if kind == 'SV')
     return vm.apply_devs(ent, d, [(ci, 1)])
